@@ -54,8 +54,14 @@ Definition chk_kernel (c : kcase) : bool :=
   mclose tol (kernel_matrix NumF ib cs jit X Xt) Kxt &&
   vclose 0 (matern52_diagonal NumF cs Xt) dg.
 
-Definition chk_jit (c : list (list float) * float * list (list float)) : bool :=
-  let '(K, s, sys) := c in mclose 0 (add_diag NumF K s) sys.
+(* AddJitterOp's search run by the MODEL (add_jitter): the Cholesky-test oracle accepts exactly the matrix the
+   implementation returned, so the model finds it iff it is K + (sigsq + k-th jitter of 0, j0, 10 j0, ...) Id *)
+Definition chk_jit (c : list (list float) * float * float * list (list float)) : bool :=
+  let '(K, sigsq, j0, sys) := c in
+  match add_jitter NumF (fun A => mclose 0 A sys) (fun _ => true) K sigsq j0 10 24 with
+  | Some (A, _) => mclose 0 A sys
+  | None => false
+  end.
 
 (* linear-algebra case *)
 Record upd := mkU { u_kvec : list float; u_kscal : float; u_noise : float; u_mscal : float;
@@ -108,6 +114,19 @@ Definition chk_su (c : gpc) : bool :=
   end.
 Definition chk_all (c : gpc) : bool :=
   chk_chol c && chk_predict c && chk_nlml c && chk_cov c && chk_upd c && chk_su c.
+
+(* the MCMC surrogate: one state per retained sample (mcmc_states), predictions per state (mcmc_predict) *)
+Fixpoint chk_preds (ps : list (option (list (list float) * list float)))
+         (os : list (list (list float) * list float * float * float)) : bool :=
+  match ps, os with
+  | [], [] => true
+  | Some (mu', var') :: ps', (mu, var, tm, tv) :: os' => mclose tm mu' mu && vclose tv var' var && chk_preds ps' os'
+  | _, _ => false
+  end.
+Definition chk_mcmc (c : float * float * list (gparams NumF) * gdata NumF * list (list float)
+                         * list (list (list float) * list float * float * float)) : bool :=
+  let '(jit, floor, samples, d, Xt, obs) := c in
+  chk_preds (mcmc_predict NumF jit floor (mcmc_states NumF jit samples d) Xt) obs.
 
 (* joint samples for a fantasy matrix: lfact, mean columns, draws zc[j][s], samples[j][s] (vectors over test points) *)
 Fixpoint tclose (tol : float) (a b : list (list (list float))) : bool :=
@@ -414,6 +433,10 @@ def run_case(ctx, spec, cases_k, cases_g, meta, kmeta, jit_cases, jit_meta, jt_c
             return
         sig_final = cands[0]
     ctx.h("jitter_added", jitter_added)
+    if n <= 5 or jitter_added:
+        jit_cases.append("(%s, %s, %s, %s)" % (fmat(K), fl(noise), fl(NOISE_VARIANCE_LOWER_BOUND * max(1.0, float(np.mean(np.diag(K))))),
+                                               fmat(sys_mat)))
+        jit_meta.append(dict(kind="gp", spec=spec))
     if spec["style"] == "jitter":
         # exercise the search itself: an exactly singular K (duplicate rows) with sigsq_init = 0
         z0 = np.array([0.0])
@@ -429,8 +452,22 @@ def run_case(ctx, spec, cases_k, cases_g, meta, kmeta, jit_cases, jit_meta, jt_c
             viol("AddJitterOp(K, 0) changed off-diagonal entries, or its diagonal is not K_ii + one constant of "
                  "the documented sequence", "jitter")
         elif c0 is not None:
-            jit_cases.append("(%s, %s, %s)" % (fmat(K), fl(c0), fmat(sm0)))
+            j_init = NOISE_VARIANCE_LOWER_BOUND * max(1.0, float(np.mean(np.diag(K))))
+            jit_cases.append("(%s, %s, %s, %s)" % (fmat(K), fl(0.0), fl(j_init), fmat(sm0)))
             jit_meta.append(dict(kind="gp", spec=spec))
+            # "first": every earlier jitter of the sequence really fails the Cholesky test
+            jj, tried = j_init, [0.0]
+            for _ in range(k_):
+                tried.append(jj)
+                jj = jj * 10.0
+            for jt_ in tried:
+                try:
+                    spl.cholesky(K + (0.0 + jt_) * np.eye(n), lower=True)
+                    viol("AddJitterOp(K, 0) returned jitter %r although the earlier jitter %r of the sequence passes "
+                         "the Cholesky test" % (c0, jt_), "jitter_not_first")
+                    break
+                except spl.LinAlgError:
+                    pass
 
     # ---- implementation: posterior state, predictions, likelihood, update --------------
     state = IncrementalUpdateGPPosteriorState(X, Y, meanf, kernel_arg, noise_arr)
@@ -854,6 +891,7 @@ def run(ctx, replay=None):
     ck_cases, ck_meta = [], []
     sq_cases, sq_meta = [], []
     jt_cases, jt_meta = [], []
+    mc_cases, mc_meta = [], []
     import warnings
     with warnings.catch_warnings():
         warnings.simplefilter("ignore")
@@ -881,7 +919,7 @@ def run(ctx, replay=None):
         for qspec in qspecs:
             gplin_composite.run_seq(ctx, qspec, sq_cases, sq_meta)
         for mspec in mspecs:
-            gplin_composite.run_mcmc(ctx, mspec)
+            gplin_composite.run_mcmc(ctx, mspec, mc_cases, mc_meta)
     for i in ctx.coq_bad_cases("kernel", IMPORTS, PRELUDE, "chk_kernel", cases_k, shard=40):
         ctx.violation("correspondence", "model Matern-5/2 kernel matrix differs from Matern52.forward/diagonal "
                       "beyond round-off", case=kmeta[i], failing_input=False,
@@ -890,6 +928,10 @@ def run(ctx, replay=None):
         ctx.violation("correspondence", "model composite kernel matrix (warped / product / range) differs from the "
                       "implementation beyond round-off", case=ck_meta[i], failing_input=False,
                       broken="correspondence chk_ckernel (model/GPLin.v warped/product/range kernel)")
+    for i in ctx.coq_bad_cases("mcmc", IMPORTS, PRELUDE, "chk_mcmc", mc_cases, shard=10):
+        ctx.violation("correspondence", "model mcmc_states / mcmc_predict differ from GPRegressionMCMC's per-sample states",
+                      case=mc_meta[i], failing_input=False,
+                      broken="correspondence chk_mcmc (model/GPLin.v mcmc_states, mcmc_predict)")
     for i in ctx.coq_bad_cases("joint", IMPORTS, PRELUDE, "chk_joint", jt_cases, shard=60):
         ctx.violation("correspondence", "model joint_samples layout differs from sample_joint on a fantasy matrix",
                       case=jt_meta[i], failing_input=False,
@@ -898,9 +940,9 @@ def run(ctx, replay=None):
         ctx.violation("correspondence", "model state machine (gstep / gpredict) and GaussianProcessRegression differ on "
                       "an operation sequence", case=sq_meta[i], failing_input=False,
                       broken="correspondence chk_model (model/GPLin.v gstep, gpredict)")
-    for i in ctx.coq_bad_cases("jitter", IMPORTS, PRELUDE, "chk_jit", jit_cases, shard=40):
-        ctx.violation("correspondence", "model add_diag differs from AddJitterOp's output", case=jit_meta[i],
-                      failing_input=False, broken="correspondence chk_jit (model/GPLin.v add_diag)")
+    for i in ctx.coq_bad_cases("jitter", IMPORTS, PRELUDE, "chk_jit", jit_cases, shard=60):
+        ctx.violation("correspondence", "model add_jitter (search over the documented sequence) does not reproduce AddJitterOp's output", case=jit_meta[i],
+                      failing_input=False, broken="correspondence chk_jit (model/GPLin.v add_jitter)")
     bad = ctx.coq_bad_cases("linalg", IMPORTS, PRELUDE, "chk_all", cases_g, shard=40)
     if bad:
         # which step? (diagnostics: one extra coqc run on the failing cases only)
